@@ -132,6 +132,25 @@ Example C19_tie_nonvacuous :
   fst (Src3k.generate_keypair (fun s => s) (repeat 1 32)) = PRIV_KEY_PREFIX ++ repeat 1 32.
 Proof. reflexivity. Qed.
 
+(* Tie A, level 1 (work package cmdsT): the keygen and keyderive COMMANDS as translated from mlar/src/main.rs on
+   this run (coq/gen/Src3m.v), with the concrete primitives, are the subject of the two central statements *)
+From MLA Require SrcTie3Keycmds.
+From MLAGen Require Src3m.
+Theorem C19_tie_keygen_cmd : forall os seed w,
+  SrcTie3Keycmds.keygen_c os (Some seed) w =
+    (let f := files_of_private x25519_base_c (keygen_private_c seed) in
+     SrcTie3Keycmds.files_world w (fst f) (snd f), Ok tt) /\
+  clamp (keygen_private_c seed) = keygen_doc_c seed.
+Proof. exact SrcTie3Keycmds.C19_keygen_is_documented_src. Qed.
+Theorem C19_tie_keyderive_cmd_compose : forall input p1 p2 w, p1 <> [] -> p2 <> [] ->
+  SrcTie3Keycmds.keyderive_c input (p1 ++ p2) w =
+  match SrcTie3Keycmds.keyderive_c input p1 w with
+  | (w1, Ok _) => SrcTie3Keycmds.keyderive_c
+                    (match Src3m.w_out w1 with MLA.Cli.OWritten b => b | MLA.Cli.OUntouched => [] end) p2 w
+  | (w1, r) => (SrcTie3Keycmds.files_world w [] [], r)
+  end.
+Proof. exact SrcTie3Keycmds.C19_derive_compose_src. Qed.
+
 
 Print Assumptions C19_derive_compose.
 Print Assumptions C19_keyderive_files_compose.
@@ -145,3 +164,5 @@ Print Assumptions C19_D18_refuted.
 Print Assumptions C19_D18_refuted_clamped_parent_two_paths.
 Print Assumptions C19_tieA_names_sizes_prefixes.
 Print Assumptions C19_tie_generate_keypair.
+Print Assumptions C19_tie_keygen_cmd.
+Print Assumptions C19_tie_keyderive_cmd_compose.
